@@ -1,5 +1,5 @@
 """Which units exist.  Verus units are modules with a UNIT; Kani units are added below."""
-from units import u2_send, u3_recv, u23_roundtrip
+from units import u2_send, u3_recv, u23_roundtrip, u7_ipc
 
-VERUS_UNITS = [u2_send.UNIT, u3_recv.UNIT, u23_roundtrip.UNIT]
+VERUS_UNITS = [u2_send.UNIT, u3_recv.UNIT, u23_roundtrip.UNIT, u7_ipc.UNIT]
 KANI_UNITS = []
